@@ -9,7 +9,8 @@ VARIABLES l, hi
 vars == <<l, hi>>
 Has(e, f) == f \in DOMAIN e
 
-AgreeDec(e) == ~Has(e, "panic") /\ LabelAgrees(e["in"], e.ok, e.names)
+AgreeDec(e) == /\ ~Has(e, "panic") /\ LabelAgrees(e["in"], e.ok, e.names)
+               /\ (e.ok /\ Has(e, "reenc")) => e.reenc = e["in"]      \* an unchanged set re-encodes to exactly its bytes
 AgreeRT(e) == /\ ~Has(e.out, "panic")
               /\ e.wire = LabelEncode(e.names)
               /\ e.out.ok /\ e.out.names = e.names
